@@ -51,9 +51,12 @@ type c12Shared struct {
 	pdesc       *proto.TypeDescriptor
 	pbMsgs      [][]byte
 	pbFieldNums []int
-	pbJSONs     [][]byte
-	p2jConv     *p2j.BinaryConv
-	j2pConv     *j2p.BinaryConv
+	// an edit applied to a task-private copy of a message (only the descriptor is shared): path + new node per doc
+	pbSetPaths [][]pgeneric.Path
+	pbSetNodes []pgeneric.Node
+	pbJSONs    [][]byte
+	p2jConv    *p2j.BinaryConv
+	j2pConv    *j2p.BinaryConv
 }
 
 type c12Op struct {
@@ -85,10 +88,11 @@ const (
 	opPBLoadMarshal
 	opPBInterface
 	opPBFields
+	opPBSet
 	nC12Ops
 )
 
-var c12OpNames = [nC12Ops]string{"j2t.Do", "j2t.DoInto", "t2j.Do", "t2j.DoInto", "GetByPath", "Children", "Load+Marshal", "MarshalTo", "desc-lookups", "Interface", "t2j.Do(ConvertException)", "j2t.Do(http-mapping, empty body)", "p2j.Do", "j2p.Do", "j2t.Do(http-mapping, body with missing root fields)", "pb.Load+Marshal", "pb.Interface", "pb.Fields+GetMany"}
+var c12OpNames = [nC12Ops]string{"j2t.Do", "j2t.DoInto", "t2j.Do", "t2j.DoInto", "GetByPath", "Children", "Load+Marshal", "MarshalTo", "desc-lookups", "Interface", "t2j.Do(ConvertException)", "j2t.Do(http-mapping, empty body)", "p2j.Do", "j2p.Do", "j2t.Do(http-mapping, body with missing root fields)", "pb.Load+Marshal", "pb.Interface", "pb.Fields+GetMany", "pb.SetByPath (private copy)"}
 
 type c12Result struct {
 	Out []byte
@@ -265,6 +269,20 @@ func (s *c12Shared) exec(op *c12Op) (res c12Result) {
 		seterr(err)
 		if err == nil {
 			res.Out = []byte(canonIface(x))
+		}
+	case opPBSet:
+		if len(s.pbMsgs) == 0 {
+			break
+		}
+		k := op.Doc % len(s.pbMsgs)
+		if s.pbSetPaths[k] == nil {
+			break
+		}
+		v := pgeneric.NewRootValue(s.pdesc, append([]byte{}, s.pbMsgs[k]...))
+		_, err := v.SetByPath(s.pbSetNodes[k], s.pbSetPaths[k]...)
+		seterr(err)
+		if err == nil {
+			res.Out = append([]byte{}, v.Raw()...)
 		}
 	case opPBFields:
 		if len(s.pbMsgs) == 0 {
@@ -609,6 +627,20 @@ func runC12(w *W) {
 			pbuf := w.AllocData(pb, simrt.PlaceReadOnly)
 			roBufs = append(roBufs, pbuf)
 			sh.pbMsgs = append(sh.pbMsgs, pbuf.B)
+			// the edit of opPBSet: replace an existing string / bytes leaf (as deep as the message goes) by a longer one
+			{
+				h := &c10Handle{name: "c12", v: pgeneric.NewRootValue(sh.pdesc, append([]byte{}, pb...)), model: mv}
+				sw := c10Switches{}
+				var path []pgeneric.Path
+				var node pgeneric.Node
+				if tg := c10PickTarget(w, h, &sw, 1, func(f *PField) bool { return f.K == pkString || f.K == pkBytes }); tg != nil && tg.exists && (tg.kind != tgField || tg.f.Card == cSingle) && !(tg.kind == tgElem && tg.idx == 0) {
+					if nv := c10Value(w, psch, &sw, tg.f, tg.kind == tgField, 100+t.Intn(100, "pbset.len")); nv != nil {
+						path, node = tg.path(), c10Node(psch, nv)
+					}
+				}
+				sh.pbSetPaths = append(sh.pbSetPaths, path)
+				sh.pbSetNodes = append(sh.pbSetNodes, node)
+			}
 			if js, err := pc.Do(context.Background(), sh.pdesc, pbuf.B); err == nil && len(js) > 1 {
 				// an unknown member (skipped by j2p) at a tape-chosen place: a call cut inside it fails while skipping
 				if js[len(js)-1] == '}' && t.Chance(2, 3, "pjson.unknown") {
@@ -761,7 +793,7 @@ func drawC12Op(w *W, sh *c12Shared) *c12Op {
 		in = sh.jsons[op.Doc]
 	case opHTTPBody:
 		in = sh.httpBodies[op.Doc]
-	case opP2J, opPBLoadMarshal, opPBInterface, opPBFields:
+	case opP2J, opPBLoadMarshal, opPBInterface, opPBFields, opPBSet:
 		if len(sh.pbMsgs) > 0 {
 			in = sh.pbMsgs[op.Doc%len(sh.pbMsgs)]
 		}
